@@ -510,6 +510,11 @@ def check(ctx: Ctx):
     check_calculators(ctx)
     check_reducers(ctx)
     check_counting(ctx)
+    # tp+fp == number of predicted instances also needs relabelling not to merge or lose instances
+    from . import c04
+
+    c04.check_chained_replacement(ctx)
+    c04.check_relabel(ctx)
 
 
 _I = "panoptica/instance_evaluator.py"
